@@ -106,6 +106,7 @@ type FnContract struct {
 	Line      int
 	InterruptibleBy string
 	Deltas    []*Clause
+	Dec       *Clause
 }
 
 type PredDef struct {
@@ -150,6 +151,7 @@ type SpecDB struct {
 	Lemmas   []*Clause
 	UFs      map[string]*UFDecl
 	Tracked  map[string]bool
+	Conds    map[string]string
 	GlobalInvs map[string][]*Clause
 	AutoTags []AutoTag
 	Mono     map[string][]*Clause // lock class -> two-state clauses checked at unlock
@@ -173,7 +175,7 @@ type AutoTag struct {
 }
 
 func newSpecDB() *SpecDB {
-	return &SpecDB{GlobalInvs: map[string][]*Clause{}, UFs: map[string]*UFDecl{}, Tracked: map[string]bool{}, Fns: map[string]*FnContract{}, Preds: map[string]*PredDef{}, Ghosts: map[string]*GhostDecl{},
+	return &SpecDB{GlobalInvs: map[string][]*Clause{}, UFs: map[string]*UFDecl{}, Tracked: map[string]bool{}, Conds: map[string]string{}, Fns: map[string]*FnContract{}, Preds: map[string]*PredDef{}, Ghosts: map[string]*GhostDecl{},
 		LockInvs: map[string][]*LockInv{}, Protects: map[string]*Protect{}, TypeInvs: map[string][]*Clause{},
 		LockLevel: map[string]int{}, Guards: map[string][]string{}, Options: map[string]map[string]string{},
 		Imports: map[string]map[string]string{}, Dyn: map[string]*FnContract{}, Mono: map[string][]*Clause{}}
@@ -195,11 +197,11 @@ func parseLabel(s string) (label string, tags []string, rest string) {
 	return
 }
 
-var directiveKW = map[string]bool{"globalinv": true, "uf": true, "tracked": true, "autotag": true, "option": true, "import": true, "ghost": true, "pred": true, "inv": true, "lockinv": true, "protect": true,
+var directiveKW = map[string]bool{"globalinv": true, "uf": true, "tracked": true, "cond": true, "autotag": true, "option": true, "import": true, "ghost": true, "pred": true, "inv": true, "lockinv": true, "protect": true,
 	"typeinv": true, "lockorder": true, "guards": true, "func": true, "dyn": true, "lemma": true, "mono": true, "spec": true}
 var clauseKW = map[string]bool{"requires": true, "ensures": true, "loop": true, "locks": true, "modifies": true, "inline": true,
 	"trusted": true, "entry": true, "optional": true, "blocking": true, "pure": true, "callsite": true, "captures": true,
-	"interruptible_by": true, "constructor": true, "delta": true}
+	"interruptible_by": true, "constructor": true, "delta": true, "decreases": true}
 
 // loadSpecFile parses one contract file. goFile: lines are taken from //@ comments.
 func (db *SpecDB) loadSpecFile(path string, pkgPath string, goFile bool) {
@@ -437,6 +439,12 @@ func (db *SpecDB) loadSpecFile(path string, pkgPath string, goFile bool) {
 			}
 			u.Res = te
 			db.UFs[u.Name] = u
+		case "cond":
+			// cond T.condfield uses T.lockfield
+			f := strings.Fields(it.text)
+			if len(f) == 3 && f[1] == "uses" {
+				db.Conds["field:"+pkgPath+"."+f[0]] = pkgPath + "." + f[2]
+			}
 		case "tracked":
 			for _, t := range strings.Fields(it.text) {
 				db.Tracked[pkgPath+"."+t] = true
@@ -452,6 +460,11 @@ func (db *SpecDB) loadSpecFile(path string, pkgPath string, goFile bool) {
 		case "func", "dyn":
 			cur = &FnContract{Header: it.text, Loops: map[int]*LoopContract{}, Pkg: pkgPath, File: path, Line: it.n}
 			key, params, results := parseFuncHeader(it.text, pkgPath, goFile)
+			if it.kw == "dyn" && !strings.Contains(key, "/") {
+				if i := strings.Index(key, ":"); i >= 0 {
+					key = key[:i+1] + pkgPath + "." + key[i+1:]
+				}
+			}
 			cur.Key, cur.Params, cur.Results = key, params, results
 			if it.kw == "dyn" {
 				db.Dyn[key] = cur
@@ -473,6 +486,8 @@ func (db *SpecDB) loadSpecFile(path string, pkgPath string, goFile bool) {
 				cur.Ensures = append(cur.Ensures, mkClause(it.text, it.n))
 			case "captures":
 				cur.Captures = append(cur.Captures, mkClause(it.text, it.n))
+			case "decreases":
+				cur.Dec = mkClause(it.text, it.n)
 			case "delta":
 				cur.Deltas = append(cur.Deltas, mkClause(it.text, it.n))
 			case "loop":
